@@ -59,6 +59,13 @@ func c28Scenario() *explore.Scenario {
 			pos := positions[x.Choose("position", len(positions))]
 			calls := x.Choose("calls", 3) // 0 once, 1 twice, 2 a longer call first, then twice
 			n := lens[x.Choose("n", len(lens))]
+			// epoch 1 (TLS 1.3): the same calls were already made once under the previous traffic key,
+			// at the same sequence position, before a KeyUpdate replaced the outgoing key
+			epoch := x.Choose("epoch", 2)
+			if epoch == 1 && (s.vers != tls.VersionTLS13 || n > 256) {
+				r.Obs = "n/a"
+				return
+			}
 			f := peer.Fix()
 			cert := f.ECDSA
 			if s.cert == "rsa" {
@@ -76,7 +83,7 @@ func c28Scenario() *explore.Scenario {
 				Prepare:     func(u *tls.UConn) error { return u.ApplyPreset(singleSuiteSpec(s)) },
 				ServerAfter: func(c *tls.Conn) error { _, err := io.Copy(received, c); return err }})
 			defer hs.Finish()
-			what := fmt.Sprintf("suite %04x vers %04x position %d calls-mode %d n=%d", s.id, s.vers, pos, calls, n)
+			what := fmt.Sprintf("suite %04x vers %04x position %d calls-mode %d n=%d key-epoch=%d", s.id, s.vers, pos, calls, n, epoch)
 			if !hs.OK() {
 				r.Violate("INFRA|c28-handshake", "%s: handshake failed: %v / %v", what, hs.CErr, hs.SErr)
 				return
@@ -86,6 +93,21 @@ func c28Scenario() *explore.Scenario {
 				return
 			}
 			var sent []byte
+			if epoch == 1 {
+				for i := 0; i < pos; i++ {
+					m := []byte{byte(i), 0x52, 0x53}
+					hs.U.Write(m)
+					sent = append(sent, m...)
+				}
+				if _, err := hs.U.GetOutKeystream(n + 64); err != nil {
+					r.Violate("C28|error", "%s: %v", what, err)
+					return
+				}
+				if err := tls.VerifSendKeyUpdate(hs.U.Conn, false); err != nil {
+					r.Violate("INFRA|c28-keyupdate", "%s: %v", what, err)
+					return
+				}
+			}
 			for i := 0; i < pos; i++ {
 				m := []byte{byte(i), 0x42, 0x43}
 				hs.U.Write(m)
@@ -150,7 +172,7 @@ func c28Scenario() *explore.Scenario {
 			}
 			r.Obs = fmt.Sprintf("%04x|viol=%d", s.id, len(r.Viol))
 			r.Nontrivial = n > 0
-			r.Class = fmt.Sprintf("%04x|%d|%d|%d", s.id, pos, calls, n)
+			r.Class = fmt.Sprintf("%04x|%d|%d|%d|%d", s.id, pos, calls, n, epoch)
 			if n == 33 && calls == 2 {
 				r.Sample = map[string]any{"suite": fmt.Sprintf("%04x", s.id), "position": pos, "n": n, "keystream_prefix": fmt.Sprintf("%x", ks[:8])}
 			}
@@ -164,7 +186,7 @@ func c28Scenarios(thorough bool) []*explore.Scenario { return []*explore.Scenari
 func init() {
 	register(&Prop{ID: "C28", Level: "exploration", Variant: "A", Scenarios: c28Scenarios,
 		Run: func(c *explore.Check, thorough bool) {
-			c.Rule = "8 AEAD suites (3 TLS 1.3, 5 TLS 1.2 incl. static-RSA GCM and both ChaCha20) x n in {0..64,255,256,1000,16384} x sequence position {0,1,2,300 records written before} x call pattern {once, twice, a 4096-byte call then twice}: keystream[:n] XOR plaintext == ciphertext of the next application-data record after the explicit nonce, and the peer receives exactly the bytes sent. distinct = (suite, position, pattern, n)"
+			c.Rule = "8 AEAD suites (3 TLS 1.3, 5 TLS 1.2 incl. static-RSA GCM and both ChaCha20) x n in {0..64,255,256,1000,16384} x sequence position {0,1,2,300 records written before} x call pattern {once, twice, a 4096-byte call then twice} x (TLS 1.3) key epoch {first, after a KeyUpdate that followed the same calls at the same position}: keystream[:n] XOR plaintext == ciphertext of the next application-data record after the explicit nonce, and the peer receives exactly the bytes sent. distinct = (suite, position, pattern, n)"
 			c.Assumptions = []string{"the suite is pinned by a custom spec offering exactly that suite; legacy ChaCha20 code points are not negotiable with the utls server and are covered for data transfer by C27"}
 			runAll(c, c28Scenarios(thorough), 0)
 		}})
